@@ -252,6 +252,13 @@ def battery(est, order=1, n=0):
         Q.append(("gamut_l1_scaling", lambda a: est.gamut_l1_scaling(a), [Bq + 1.0]))
         Q.append(("gamut_dist_scaling", lambda a: est.gamut_dist_scaling(a), [Bq]))
         Q.append(("fit_adaptive", lambda a: est.fit_adaptive(a), [Bq[:2]]))
+
+        def fit_registered_on_copy():
+            c = copy.deepcopy(est)  # fit() is a mutating operation of the alphabet: observe it on a copy
+            c.fit()
+            return (np.asarray(c.X), np.asarray(c.B))
+
+        Q.append(("fit()-on-copy", fit_registered_on_copy, []))
     if order < 0:
         Q = Q[::-1]
     out = {}
@@ -270,7 +277,7 @@ def battery(est, order=1, n=0):
     return out
 
 
-def fresh_from(est):
+def fresh_from(est, M=None):
     """a fresh estimator constructed directly from the currently registered values of `est` (read through its documented attributes)"""
     import dreye
 
@@ -282,8 +289,12 @@ def fresh_from(est):
         if est.registered:
             f.register_system(np.array(est.sources), domain=np.array(est.sources_domain), lb=np.array(est.lb), ub=np.array(est.ub))
             if est.registered_targets:
-                Wcur = np.array(est.W)
-                f.register_targets(np.array(est.B), W=(None if np.array_equal(Wcur, np.array(est.w)) else Wcur))
+                if M is not None and M.get("B") is not None:
+                    # the registered weights are taken from the reference model (None = the constructor's w)
+                    f.register_targets(np.array(est.B), W=(None if M.get("W") is None else np.array(M["W"])))
+                else:
+                    Wcur = np.array(est.W)
+                    f.register_targets(np.array(est.B), W=(None if np.array_equal(Wcur, np.array(est.w)) else Wcur))
     except AttributeError:
         return None
     return f
@@ -417,6 +428,22 @@ def _visit(hist, rec, seen):
                 if abs(mg[j]) > 1e-6 * ext and bool(np.asarray(raw)[j]) != bool(mg[j] > 0):
                     _v(rec, "a", dict(query="in_hull", what="differs-from-reference-model", op=(OPS[hist[-1]][0] if hist else "init")), "in_hull differs from the reference model's gamut after history %s" % hname, case,
                        observed=np.asarray(raw), expected=mg, script=_script(hist))
+    if registered and M.get("B") is not None and "fit()-on-copy" in ans1:
+        (st, cv, raw), _ = ans1["fit()-on-copy"]
+        Abar, c0 = model_abar(M)
+        Bm = np.asarray(M["B"], dtype=float)
+        Wm = np.broadcast_to(np.ones(2) if M["W"] is None else M["W"], Bm.shape)
+        if st != "ok":
+            _v(rec, "a", dict(query="fit()-on-copy", what="raises", op=(OPS[hist[-1]][0] if hist else "init")), "fit() of the registered targets raises after history %s: %s" % (hname, cv), case, script=_script(hist))
+        else:
+            Xf, Bf = raw
+            for r in range(len(Bm)):
+                opt, _ = O.box_lsq(Abar, Bm[r], M["lb"], M["ub"], w=Wm[r], c0=c0)
+                val = float(np.linalg.norm(Wm[r] * (np.asarray(Bf)[r] - Bm[r]))) if np.shape(Bf) == Bm.shape else np.inf
+                if val > opt + 2e-2:
+                    _v(rec, "a", dict(query="fit()-on-copy", what="not-optimal-for-registered-weights", op=(OPS[hist[-1]][0] if hist else "init")),
+                       "fit() is not the weighted optimum for the currently registered targets/weights (residual %.4g vs %.4g) after history %s" % (val, opt, hname), case, script=_script(hist))
+                    break
     # ---- (c)/(e) purity: second run, reversed order on a replayed object
     ans2 = battery(est, n=nn)
     est_r = build(hist)
@@ -442,7 +469,7 @@ def _visit(hist, rec, seen):
                observed=(raw5 if st5 == "ok" else cv5), expected=(raw if st == "ok" else cv), script=_script(hist))
     # ---- (b) differential: fresh object from the registered values
     try:
-        fr = fresh_from(est)
+        fr = fresh_from(est, M)
         if fr is None:
             rec.count("differential-not-observable")
             ans4 = None
